@@ -3993,3 +3993,346 @@ func ruleC07ReceiverCopy(c *ctx.Ctx, r *core.Reporter) {
 	}
 	r.Check(len(missing) == 0, "predicate-covers-modifications", c.Pos(hd.Pos()), fmt.Sprintf("%s looks at assignments, ++/--, range targets, & (address), slicing of arrays and pointer-receiver method selections%s", helper, ternary(len(missing) > 0, fmt.Sprintf(" — no arm for %v", missing), "")))
 }
+
+// ruleNegativeShift: a shift whose count has a signed type panics at run time when the count is negative
+// ("negative shift amount"). JavaScript masks the count to five bits instead (`5 << -1` is -2147483648), so
+// every non-constant shift has to test the count: the 32-bit templates through a checking helper chosen when
+// the count's type is not unsigned, the 64-bit helpers in their own bodies.
+func ruleNegativeShift(c *ctx.Ctx, r *core.Reporter) {
+	r.Begin("C06.negative-shift", "F-MUST", "every non-constant shift tests its count for negativity before shifting: 32-bit templates take the count through a throwing helper unless the count's type is unsigned, the 64-bit shift helpers throw on y < 0", 5)
+	fd := c.FuncDecl("compiler", "funcContext.translateExpr")
+	if fd == nil {
+		r.Undecided("translateExpr", "compiler/expressions.go", "not found")
+		return
+	}
+	if !needPrelude(c, r) {
+		return
+	}
+	// throwsOnNegative: a top-level `if (<param> < 0) { ...$throwRuntimeError(...) }` before the first statement that returns
+	throwsOnNegative := func(fn *ctx.JSNode, param int) bool {
+		ps := fn.L("params")
+		if param >= len(ps) || !fn.N("body").Is("BlockStatement") {
+			return false
+		}
+		p := ps[param].IdentName()
+		for _, st := range fn.N("body").L("body") {
+			if st.Is("IfStatement") && squash(st.N("test").Src()) == p+"<0" {
+				throws := false
+				st.N("consequent").Walk(func(y *ctx.JSNode) bool {
+					if y.Is("CallExpression") && (y.N("callee").IdentName() == "$throwRuntimeError" || y.N("callee").IdentName() == "$panic") {
+						throws = true
+					}
+					if y.Is("ThrowStatement") {
+						throws = true
+					}
+					return true
+				})
+				return throws
+			}
+			returns := false
+			st.Walk(func(y *ctx.JSNode) bool {
+				if y.IsFunc() {
+					return false
+				}
+				if y.Is("ReturnStatement") {
+					returns = true
+				}
+				return true
+			})
+			if returns {
+				return false
+			}
+		}
+		return false
+	}
+	var arm32 *ast.CaseClause
+	var arms64 []*ast.CaseClause
+	ast.Inspect(fd.Body, func(x ast.Node) bool {
+		cc, ok := x.(*ast.CaseClause)
+		if !ok {
+			return true
+		}
+		labs := map[string]bool{}
+		for _, l := range cc.List {
+			labs[exprStr(l)] = true
+		}
+		switch {
+		case labs["token.SHL"] && labs["token.SHR"] && len(cc.List) == 2:
+			arm32 = cc
+		case (labs["token.SHL"] || labs["token.SHR"]) && len(cc.List) == 1:
+			arms64 = append(arms64, cc)
+		}
+		return true
+	})
+	if arm32 == nil || len(arms64) == 0 {
+		r.Undecided("arms", c.Pos(fd.Pos()), fmt.Sprintf("shift arms of translateExpr not found (32-bit: %v, 64-bit: %d)", arm32 != nil, len(arms64)))
+		return
+	}
+	// 32-bit arm: the checked count
+	helper := ""
+	guarded := false
+	helperSite := arm32.Pos()
+	ast.Inspect(arm32, func(x ast.Node) bool {
+		as, ok := x.(*ast.AssignStmt)
+		if !ok || len(as.Rhs) != 1 {
+			return true
+		}
+		ce, ok := as.Rhs[0].(*ast.CallExpr)
+		if !ok || len(ce.Args) != 2 || exprStr(ce.Args[1]) != "e.Y" {
+			return true
+		}
+		bl, ok := ce.Args[0].(*ast.BasicLit)
+		if !ok {
+			return true
+		}
+		t := strings.Trim(bl.Value, "`\"")
+		if strings.HasPrefix(t, "$") && strings.HasSuffix(t, "(%f)") {
+			helper = strings.TrimSuffix(t, "(%f)")
+			helperSite = as.Pos()
+			inner := 0
+			for _, g := range guardsAt(arm32, as.Pos()) {
+				inner++
+				cond := squash(exprStr(g.Cond))
+				if strings.Contains(cond, "!isUnsigned(") && !g.Negated {
+					guarded = true
+				}
+			}
+			if inner == 0 {
+				guarded = true // every count is checked, whatever its type
+			}
+		}
+		return true
+	})
+	r.Check(helper != "", "count32:checked-count", c.Pos(helperSite), "the arm of `<<`/`>>` on 32-bit operands forms the count with a checking helper `$helper(%f)` of e.Y"+ternary(helper != "", " ("+helper+")", ""))
+	if helper != "" {
+		r.Check(guarded, "count32:unless-unsigned", c.Pos(helperSite), "the checking helper is left out only when the count's type is unsigned (`!isUnsigned(<type of e.Y>)` guards the wrapped form)")
+		if fn := c.PreludeFunc(helper); fn == nil {
+			r.Violation("count32:helper-throws", "compiler/prelude/numeric.js", helper+" is not declared in the prelude")
+		} else {
+			ret := false
+			fn.Walk(func(y *ctx.JSNode) bool {
+				if y.Is("ReturnStatement") && len(fn.L("params")) > 0 && y.N("argument").IdentName() == fn.L("params")[0].IdentName() {
+					ret = true
+				}
+				return true
+			})
+			r.Check(throwsOnNegative(fn, 0) && ret, "count32:helper-throws", fn.Pos(), helper+" throws a run-time error when its argument is below zero and returns the argument otherwise")
+		}
+	}
+	// no other template of the non-constant part takes e.Y directly
+	n := 0
+	var bad []string
+	badSite := ""
+	ast.Inspect(arm32, func(x ast.Node) bool {
+		ce, ok := x.(*ast.CallExpr)
+		if !ok || len(ce.Args) < 2 {
+			return true
+		}
+		bl, ok := ce.Args[0].(*ast.BasicLit)
+		if !ok {
+			return true
+		}
+		takesY := false
+		for _, a := range ce.Args[1:] {
+			if exprStr(a) == "e.Y" {
+				takesY = true
+			}
+		}
+		if !takesY {
+			return true
+		}
+		for _, g := range guardsAt(fd.Body, ce.Pos()) {
+			if strings.Contains(exprStr(g.Cond), ".Value") && strings.Contains(exprStr(g.Cond), "!= nil") && !g.Negated {
+				return true // the constant-count branch: a constant count is never negative (type checker)
+			}
+		}
+		t := strings.Trim(bl.Value, "`\"")
+		n++
+		if !(t == "%f" || (helper != "" && t == helper+"(%f)")) {
+			bad = append(bad, fmt.Sprintf("%s %q", c.Pos(ce.Pos()), t))
+			if badSite == "" {
+				badSite = c.Pos(ce.Pos())
+			}
+		}
+		return true
+	})
+	if badSite == "" {
+		badSite = c.Pos(arm32.Pos())
+	}
+	// one obligation for all templates: how many there are is a matter of style
+	r.Check(len(bad) == 0, "count32:templates", badSite, fmt.Sprintf("the %d template(s) of the non-constant part that take e.Y only form the (checked) count, none shifts by e.Y directly%s", n, ternary(len(bad) > 0, fmt.Sprintf(" — shifting by the raw count: %v", bad), "")))
+	// 64-bit arms: the helpers named by the templates
+	seen := map[string]bool{}
+	for _, cc := range arms64 {
+		ast.Inspect(cc, func(x ast.Node) bool {
+			bl, ok := x.(*ast.BasicLit)
+			if !ok || !strings.Contains(bl.Value, "$shift") {
+				return true
+			}
+			t := strings.Trim(bl.Value, "`\"")
+			name := t[:strings.Index(t, "(")]
+			var names []string
+			if strings.Contains(name, "%s") {
+				for _, k := range []string{"Int64", "Uint64"} {
+					names = append(names, strings.Replace(name, "%s", k, 1))
+				}
+			} else {
+				names = []string{name}
+			}
+			wrapped := helper != "" && strings.Contains(t, helper+"(%f)")
+			for _, nm := range names {
+				if seen[nm] {
+					continue
+				}
+				seen[nm] = true
+				fn := c.PreludeFunc(nm)
+				if fn == nil {
+					r.Violation("count64:"+nm, c.Pos(bl.Pos()), nm+" is not declared in the prelude")
+					continue
+				}
+				r.Check(wrapped || throwsOnNegative(fn, 1), "count64:"+nm, fn.Pos(), nm+" throws a run-time error when the count is below zero, before any result is formed")
+			}
+			return true
+		})
+	}
+	r.Check(len(seen) >= 3, "count64:sites", c.Pos(fd.Pos()), fmt.Sprintf("%d 64-bit shift helpers named by the templates (<<, >> signed, >> unsigned)", len(seen)))
+}
+
+// ruleC18TagsSplit: "the tags given on the command line" are a comma-separated list for the go command (the
+// space-separated form is still accepted). A splitter that knows white space only turns `--tags a,b` into the
+// one tag "a,b", which satisfies nothing: the guarded files silently drop out of the build.
+func ruleC18TagsSplit(c *ctx.Ctx, r *core.Reporter) {
+	r.Begin("C18.tags-split", "F-TABLE", "every command hands Options.BuildTags a list split from the --tags value at commas (and white space)", 2)
+	p := c.Pkg("")
+	if p == nil {
+		r.Undecided("pkg", "tool.go", "root package not loaded")
+		return
+	}
+	// commaAware: the expression (or the body of the package-level function it calls) splits at ','
+	hasCommaLit := func(n ast.Node) bool {
+		found := false
+		ast.Inspect(n, func(x ast.Node) bool {
+			if bl, ok := x.(*ast.BasicLit); ok && (bl.Value == `','` || bl.Value == `","` || bl.Value == "`,`" || strings.Contains(bl.Value, ",") && (bl.Kind == token.STRING || bl.Kind == token.CHAR) && len(bl.Value) <= 6) {
+				found = true
+			}
+			return true
+		})
+		return found
+	}
+	decls := map[types.Object]*ast.FuncDecl{}
+	for _, f := range p.Syntax {
+		for _, d := range f.Decls {
+			if fd, ok := d.(*ast.FuncDecl); ok && fd.Recv == nil {
+				decls[p.TypesInfo.Defs[fd.Name]] = fd
+			}
+		}
+	}
+	n := 0
+	for _, f := range p.Syntax {
+		if c.IsTestFile(f.Pos()) {
+			continue
+		}
+		ast.Inspect(f, func(x ast.Node) bool {
+			as, ok := x.(*ast.AssignStmt)
+			if !ok || len(as.Lhs) != 1 || len(as.Rhs) != 1 {
+				return true
+			}
+			se, ok := as.Lhs[0].(*ast.SelectorExpr)
+			if !ok || se.Sel.Name != "BuildTags" {
+				return true
+			}
+			n++
+			rhs := ast.Unparen(as.Rhs[0])
+			ok2 := hasCommaLit(rhs)
+			how := "inline"
+			if ce, isCall := rhs.(*ast.CallExpr); isCall && !ok2 {
+				if id, isId := ce.Fun.(*ast.Ident); isId {
+					if fd := decls[p.TypesInfo.Uses[id]]; fd != nil && fd.Body != nil {
+						ok2 = hasCommaLit(fd.Body)
+						how = "through " + fd.Name.Name
+					}
+				}
+			}
+			r.Check(ok2, fmt.Sprintf("split#%d", n), c.Pos(as.Pos()), fmt.Sprintf("`%s` splits the flag value at commas (%s)%s", nodeString(c, as), how, ternary(!ok2, " — `--tags a,b` becomes the single tag \"a,b\"", "")))
+			return true
+		})
+	}
+	r.Check(n >= 4, "sites", "tool.go", fmt.Sprintf("%d assignments to Options.BuildTags (build, install, run, test, serve)", n))
+}
+
+// ruleC11TagIdentifier: a `js:"name"` tag is emitted in dot notation only when the name is a JavaScript
+// identifier. Of the Unicode numbers only decimal digits (Nd, not first) and letter numbers (Nl) are
+// identifier characters: `unicode.IsNumber` also admits ² and ½, and `.x²` is a syntax error that keeps the
+// whole program from loading.
+func ruleC11TagIdentifier(c *ctx.Ctx, r *core.Reporter) {
+	r.Begin("C11.tag-identifier", "F-LEX", "formatJSStructTagVal takes the dot notation only for characters JavaScript allows in an identifier: no unicode.IsNumber, digits only after the first character", 2)
+	fd := c.FuncDecl("compiler", "formatJSStructTagVal")
+	if fd == nil {
+		r.Undecided("formatJSStructTagVal", "compiler/utils.go", "not found")
+		return
+	}
+	var preds []string
+	digitFirst := false
+	site := fd.Pos()
+	ast.Inspect(fd.Body, func(x ast.Node) bool {
+		ce, ok := x.(*ast.CallExpr)
+		if !ok {
+			return true
+		}
+		se, ok := ce.Fun.(*ast.SelectorExpr)
+		if !ok || exprStr(se.X) != "unicode" {
+			return true
+		}
+		preds = append(preds, se.Sel.Name)
+		if se.Sel.Name == "IsNumber" {
+			site = ce.Pos()
+		}
+		return true
+	})
+	// a digit test has to sit in a conjunction with a test of the index
+	ast.Inspect(fd.Body, func(x ast.Node) bool {
+		ce, ok := x.(*ast.CallExpr)
+		if !ok {
+			return true
+		}
+		if se, ok := ce.Fun.(*ast.SelectorExpr); !ok || exprStr(se.X) != "unicode" || se.Sel.Name != "IsDigit" {
+			return true
+		}
+		guarded := false
+		ast.Inspect(fd.Body, func(y ast.Node) bool {
+			be, ok := y.(*ast.BinaryExpr)
+			if !ok || be.Op != token.LAND || !(be.Pos() <= ce.Pos() && ce.End() <= be.End()) {
+				return true
+			}
+			for _, cj := range conjuncts(be) {
+				s := squash(exprStr(cj))
+				if s == "i!=0" || s == "i>0" || s == "0<i" || s == "0!=i" || s == "i>=1" {
+					guarded = true
+				}
+			}
+			return true
+		})
+		if !guarded {
+			for _, g := range guardsAt(fd.Body, ce.Pos()) {
+				s := squash(exprStr(g.Cond))
+				if (s == "i!=0" || s == "i>0") && !g.Negated {
+					guarded = true
+				}
+			}
+		}
+		if !guarded {
+			digitFirst = true
+			site = ce.Pos()
+		}
+		return true
+	})
+	hasNumber := false
+	for _, p := range preds {
+		if p == "IsNumber" {
+			hasNumber = true
+		}
+	}
+	r.Check(len(preds) > 0, "predicates", c.Pos(fd.Pos()), fmt.Sprintf("identifier characters are classified with unicode.%v", preds))
+	r.Check(!hasNumber, "no-IsNumber", c.Pos(site), "no character is admitted by unicode.IsNumber (category No — ², ½, ① — is not part of a JavaScript identifier: `.x²` does not parse)")
+	r.Check(!digitFirst, "digit-not-first", c.Pos(site), "a decimal digit is admitted only after the first character (`.1a` does not parse)")
+}
